@@ -383,7 +383,7 @@ resolve_constant = Fn(
     requires=[C("symbol_defined", "defined(&old(defs).symbols, ast_symbol.item_ref)", ["C03"]),
               C("is_constant", "ast_symbol.kind is Constant", ["C03"])],
     ensures=pass_contract() + [
-        C("resolved_means_unchanged_unless_frozen", "res == %s && !%s.resolved ==> expr::value_eq(%s.value, %s.value)" % (STABLE, SYM, SYM, OSYM), ["C02", "C09"]),
+        C("resolved_means_unchanged_unless_frozen", "res == %s && !%s.resolved ==> expr::value_same(%s.value, %s.value)" % (STABLE, SYM, SYM, OSYM), ["C02", "C09"]),
         C("frozen_only_in_first_pass_when_statically_known", "%s.resolved && !%s.resolved ==> ctx.is_first_iteration && opts.optimize_statically_known && %s.value_statically_known" % (SYM, OSYM, OSYM), ["C02", "C08"]),
     ],
     rewrites=[Rewrite(r"println!\((?:[^()]|\((?:[^()]|\([^()]*\))*\))*\);", "", regex=True, rule="R7", why="debug printing statement deleted", count=2)],
